@@ -44,7 +44,8 @@ Inductive action :=
 | APing (p : N) | AcloneP (p : N) | ADropP (p : N)
 | ASend (c : N) (v : Z) | ATrySend (c : N) (v : Z) | ADropSender (c : N) | ACloneSender (c : N)
 | AIdle (i : N) | ACancelIdle (i : N)
-| ANewPing (p : N) (fd : N) | ANewChan (c : N) (fd : N) (bound : option N).
+| ANewPing (p : N) (fd : N) | ANewChan (c : N) (fd : N) (bound : option N)
+| AStopSignal.                                   (* LoopSignal::stop(): only run() looks at the flag, dispatch() does not *)
 
 Inductive cmd :=
 | CAct (a : action)
@@ -574,6 +575,7 @@ Definition exec_action (s : st) (a : action) : st :=
   | ACancelIdle i => do_cancelidle s i
   | ANewPing p fd => eenv s (fun e => set_pings e (fupd (pings e) p (Some (fd, 1))))
   | ANewChan c fd b => eenv s (fun e => set_chans e (fupd (chans e) c (Some (mkChan [] 1 b true fd))))
+  | AStopSignal => s
   end.
 Definition exec_actions (s : st) (l : list action) : st := fold_left exec_action l s.
 
